@@ -28,11 +28,26 @@ CHECKS = {
    text="signed_shift / unsigned_shift / open / free_variables are compared with renaming and capture-avoiding substitution on named terms (globally fresh binder names) and with the algebraic laws of the property, for every hole-free term up to 5-6 nodes over all formers, every 1-3-definition group with leaf slots, a full grid of cutoffs, amounts, indices and inserted terms, and proptest-generated deeper terms. Exhaustive within the bound, sampled beyond.",
    note="Trusts the named-term model (conversion by context of names; Barendregt convention) and the reading of open's shift argument stated in the evidence file.",
    ref="DESIGN.md section 3, C11"),
+ "C14": dict(
+   technique="property-based testing / fuzzing (proptest) + bounded-exhaustive enumeration, in worker processes with abort attribution",
+   text="Robustness fuzzing with a result-shape oracle: generated Unicode strings, token soups, character- and token-damaged sentences, every token string up to length 4/5, unbalanced brackets, truncated sentences and scoping-valid ill-typed programs go through tokenize / parse / type_check under catch_unwind in worker processes (a stack overflow or hang is attributed to the announced case); files of arbitrary bytes (invalid UTF-8, empty, damaged programs, nesting to 1000) go through `gram check`. No panic; Ok or a non-empty list of [Error] diagnostics; CLI exit 0 + `Elaborated term:` + empty stderr, or exit 1 + empty stdout + [Error]. Sampled except for the short token strings.",
+   note="An abort or hang inside type_check is counted inconclusive (divergent programs are allowed to diverge); nesting beyond ~3000 parentheses exhausts the CLI's 16 MiB stack and is outside the explored bound.",
+   ref="DESIGN.md section 3, C14"),
+ "C15": dict(
+   technique="property-based testing (proptest) with planted faults against a reference excerpt renderer + re-parse of every subterm range",
+   text="Rejected programs are generated with one planted fault of known byte span (unbound / re-bound names in all binder forms, seven type-fault kinds with atomic, parenthesised and multi-line offending expressions, stray symbols) at generated positions (after up to 40 lines, after non-ASCII text on the line, on continuation lines, LF/CRLF, with/without final newline); the diagnostic's excerpt must show exactly the spanned lines, right numbers, and overline columns equal to the span's characters. White-box companion: every subterm range of generated programs under multi-line layouts lies in the file on char boundaries, nests in its parent, and re-parses in scope to the same subterm. Sampled.",
+   note="Trusts the reference excerpt model (R-listing); spans may include or exclude parentheses that enclose only the offending expression.",
+   ref="DESIGN.md section 3, C15"),
  "C16": dict(
    technique="property-based testing (proptest) round trip print -> tokenize -> parse",
    text="Round-trip testing: generated source programs covering every (parent position x child form) pair are parsed, printed with Display, tokenized and parsed again in the same scope; the result must be structurally identical (indices, implicit flags, literals, definition order, holes, names except unused pi parameters). The evidence lists the pair matrix with counts. Sampled, not exhaustive; elaborated terms are covered through C05's and C19's programs.",
    note="Trusts the structural comparison in bridge.rs; the recorded finding (implicit pi with unused parameter) is matched by that exact shape only.",
    ref="DESIGN.md section 3, C16"),
+ "C17": dict(
+   technique="scaling measurement over generated input families on a deterministic work counter (hook)",
+   text="22 input families x 5 damage variants with n doubling from 6 to 1536 (quick) / 6144 (thorough), plus proptest-generated random compositions: the number of parsing-function calls (hook in cache_check!) must stay below 250 per token and the per-token rate must not rise on two successive doublings; CPU time growing >12x on two successive doublings and hangs (watchdog, attributed to the announced input) are violations too. Decides linearity of the memoised parser on the explored families; says nothing about families not listed.",
+   note="Needs the parser hook (feature verif). The constant was calibrated on the pinned tree (max observed about 60 calls per token).",
+   ref="DESIGN.md section 3, C17"),
 }
 NOT_YET = {}
 
